@@ -87,6 +87,59 @@ def np_where(ip, args, kwargs, node):
     return ip.fresh_array(P.ite(c.cond, ta, tb))
 
 
+def np_minmax(which):
+    """np.minimum / np.maximum / np.fmin / np.fmax: elementwise, as a piecewise term on the ordering of the operands"""
+    def g(ip, args, kwargs, node):
+        if len(args) != 2 or kwargs:
+            raise Unsupported('np.%s with %d args / keywords' % (which, len(args)), node)
+        ta, ka = ip.term_of(args[0], node)
+        tb, kb = ip.term_of(args[1], node)
+        if P.is_pw(ta) or P.is_pw(tb):
+            raise Unsupported('np.%s of piecewise terms' % which, node)
+        c = P.Cond.cmp('>', ta, tb)
+        t = P.ite(c, tb, ta) if which == 'minimum' else P.ite(c, ta, tb)
+        return ip.make_result(t, 'array' if 'array' in (ka, kb) else 'scalar')
+    return g
+
+
+def np_clip(ip, args, kwargs, node):
+    a = list(args)
+    for k in ('a_min', 'a_max'):
+        if k in kwargs:
+            a.append(kwargs[k])
+    if len(a) != 3:
+        raise Unsupported('np.clip arity', node)
+    x, lo, hi = a
+    y = x
+    if not (isinstance(lo, Const) and lo.v is None):
+        y = np_minmax('maximum')(ip, [y, lo], {}, node)
+    if not (isinstance(hi, Const) and hi.v is None):
+        ty, _ = ip.term_of(y, node)
+        if P.is_pw(ty):
+            th, _ = ip.term_of(hi, node)
+            t = P.lift1(lambda leaf: P.ite(P.Cond.cmp('>', leaf, th), th, leaf), ty)
+            return ip.make_result(t, 'array')
+        y = np_minmax('minimum')(ip, [y, hi], {}, node)
+    return y
+
+
+def np_position(name):
+    """searchsorted / argmax / argmin / argsort / nonzero / flatnonzero / count_nonzero: the result is a *position*
+    that depends on the whole array (uninterpreted, non-pointwise)"""
+    def g(ip, args, kwargs, node):
+        ts = []
+        for x in args:
+            if isinstance(x, Mask):
+                ts.append(N.fn('maskarr', x.cond.show()))
+                continue
+            t, _ = ip.term_of(x, node)
+            if P.is_pw(t):
+                raise Unsupported('%s of a piecewise term' % name, node)
+            ts.append(t)
+        return Num(N.fn('position:' + name, *ts), 'scalar')
+    return g
+
+
 def np_fill(value):
     def g(ip, args, kwargs, node):
         return ip.fresh_array(N.NF.const(value))
@@ -558,6 +611,10 @@ CALLS = {
     'math.cos': _scalar_only(N.cos, 'math.cos'), 'math.sqrt': _scalar_only(N.sqrt, 'math.sqrt'),
     'math.log': _scalar_only(N.log, 'math.log'),
     'numpy.where': np_where,
+    'numpy.minimum': np_minmax('minimum'), 'numpy.maximum': np_minmax('maximum'),
+    'numpy.fmin': np_minmax('minimum'), 'numpy.fmax': np_minmax('maximum'), 'numpy.clip': np_clip,
+    'numpy.searchsorted': np_position('searchsorted'), 'numpy.argmax': np_position('argmax'),
+    'numpy.argmin': np_position('argmin'), 'numpy.count_nonzero': np_position('count_nonzero'),
     'numpy.zeros_like': np_fill(0), 'numpy.ones_like': np_fill(1), 'numpy.zeros': np_fill(0),
     'numpy.ones': np_fill(1),
     'numpy.copy': np_copy, 'numpy.array': np_copy, 'numpy.asarray': np_asarray,
